@@ -1558,7 +1558,7 @@ static void op_foreach(int t, struct mon_rng *r) {
     OP("foreach(t%d,n=%zu,pdel=%u,pstop=%u,perr=%u)", t, m->n, x.pdel, x.pstop, x.perr);
     mon_fp(0xD00 + (uint64_t)t);
     mon_fp(x.pdel * 10000 + x.pstop * 100 + x.perr);
-    aws_reset_error();
+    aws_reset_error(); /* the expected code below (UNKNOWN when the callback raised nothing) presumes a clean slot */
     int rc = aws_hash_table_foreach(&s_t[t], fe_cb, &x);
     if (s_bad) {
         return;
@@ -1812,6 +1812,9 @@ static void run_case(uint64_t case_idx) {
     mon_fp(profile[1] * 4 + profile[2] * 2 + profile[3]);
     size_t done = 0;
     for (size_t op = 0; op < nops && !s_bad; ++op, ++done) {
+        if (mon_chance(r, 1, 3)) {
+            mon_poison_last_error(r);
+        }
         unsigned phase = (unsigned)((op * 4) / nops);
         bool grow = profile[phase] != 0;
         const unsigned *w = grow ? w_grow : w_shrink;
